@@ -5,13 +5,23 @@
 //   ArrayFilter1DUsingConvolution (zero/constant/periodic boundary conditions, 1- and 2-argument call),
 //   ArrayFilter1DUsingConvolutionSymmetricKernel, ArrayFilter2DUsingConvolution, ArrayFilter3DUsingConvolution,
 //   ArrayFilterUsingRealDFTWithPadding<1|2|3>, SeparableArrayFunctionObject<3>, SeparableConvolutionImageFilter (parsed),
-//   SeparableGaussianArrayFilter<3>, SeparableMetzArrayFilter<3>.
+//   SeparableGaussianArrayFilter<3>, SeparableMetzArrayFilter<3>;
+//   get_influencing_indices / get_influenced_indices / is_trivial of the filter classes (op `rng`), the frequency-space
+//   constructor / set_kernel_in_frequency_space / set_padding_range of ArrayFilterUsingRealDFTWithPadding (ops `dftfq`, `dftfh`,
+//   `padr`), the in-place operator() of the 2-D / 3-D / DFT filters (`conv2ip`, `conv3ip`, `dftfip`), and
+//   apply_array_functions_on_each_index (ArrayFunction.inl, the consumer of get_influencing_indices; op `sepoo`).
 // Usage: c19_fourier_filters <seed> <quick|thorough> <opsfile> <implfile>
 // One operation per line in <opsfile>, the implementation's answer per line in <implfile>, and the verdicts of the
 // property's own statement evaluated on the implementation in <implfile>.oracle.
 //
 // Number formats: integer-valued data as decimal integers (exact in float), other floats as C99 hex (%a).
 #include "common.h"
+#include <algorithm>
+// ArrayFunction.inl:255-272 (the ArrayFunctionObject specialisation of apply_array_functions_on_each_index) calls min/max
+// unqualified; nothing in the library instantiates it.  To be able to drive it (sepoo_cases) the names must be visible
+// where the template is defined:
+using std::max;
+using std::min;
 #include "stir/Array.h"
 #include "stir/Array_complex_numbers.h"
 #include "stir/IndexRange.h"
@@ -23,6 +33,8 @@
 #include "stir/ArrayFilter3DUsingConvolution.h"
 #include "stir/ArrayFilterUsingRealDFTWithPadding.h"
 #include "stir/SeparableArrayFunctionObject.h"
+#include "stir/ArrayFunction.h"
+#include "stir/modulo.h"
 #include "stir/SeparableGaussianArrayFilter.h"
 #include "stir/SeparableMetzArrayFilter.h"
 #include "stir/SeparableConvolutionImageFilter.h"
@@ -524,6 +536,15 @@ fourier_part(Ctx& c)
           int nn[3] = { n, 1, 1 };
           fft_case<1>(c, nn, sign, kind);
         }
+  if (!c.thorough)
+    // quick tier: the lengths 256, 512, 1024 with one random and one structured data set each
+    for (int n = 256; n <= 1024; n *= 2)
+      {
+        int nn[3] = { n, 1, 1 };
+        const int sign = c.rng.coin() ? 1 : -1;
+        fft_case<1>(c, nn, sign, 0);
+        fft_case<1>(c, nn, -sign, c.rng.range(2, 5));
+      }
   // 2D
   const long cap2 = c.thorough ? 16384 : 1024;
   const int max2 = c.thorough ? 128 : 32;
@@ -647,6 +668,96 @@ is_delta_at_origin(const Arr& k)
   return true;
 }
 
+
+// ---------------------------------------------------------------------------------------------- index-range queries
+static std::string
+rng_answer(bool ok1, const IndexRange<1>& influencing, bool ok2, const IndexRange<1>& influenced, bool trivial)
+{
+  return (ok1 ? itos(influencing.get_min_index()) + " " + itos(influencing.get_max_index()) : std::string("no")) + " "
+         + (ok2 ? itos(influenced.get_min_index()) + " " + itos(influenced.get_max_index()) : std::string("no")) + " " + itos(trivial);
+}
+
+static std::string
+outer_str(const Box& b)
+{
+  return itos(b.mn[0]) + " " + itos(b.mx[0]);
+}
+
+// ORACLE for get_influenced_indices / get_influencing_indices (ArrayFunctionObject.h: "the range of indices that gets
+// influenced by a set of coordinates input_indices" / "the range of indices that influences the result in output_indices"),
+// along the OUTER index, evaluated on the implementation's own filter (`apply(in, ob)` runs the real filter):
+//  (a) an output element whose outer index is outside the influenced range of the input's range is the value the boundary
+//      condition gives to data that are not there: 0 (zero) / kernel-sum * nearest edge element (constant, 1-D);
+//  (b) changing input elements outside the influencing range of the output's range does not change the output
+//      (constant boundary condition: the edge elements stand for all indices beyond them, so an edge element may only
+//      change when all of those are outside the range as well).
+template <class Apply>
+static void
+range_oracle(Ctx& c, Apply apply, const Arr& k, const Arr& in, const Box& ob, int bc, int infl_lo, int infl_hi, int infd_lo, int infd_hi,
+             const std::vector<float>& got, const std::string& what)
+{
+  if (ob.size() == 0 || in.b.size() == 0)
+    return;
+  // (a)
+  {
+    double ksum = 0;
+    for (double e : k.v)
+      ksum += e;
+    bool ok = true;
+    int bad = 0;
+    int idx[3];
+    ob.first(idx);
+    long f = 0;
+    do
+      {
+        if (idx[0] < infd_lo || idx[0] > infd_hi)
+          {
+            double expect = 0;
+            if (bc == 1)
+              expect = ksum * (idx[0] < infd_lo ? in.v.front() : in.v.back());
+            if (double(got[f]) != expect)
+              {
+                ok = false;
+                bad = idx[0];
+              }
+          }
+        ++f;
+    } while (ob.next(idx));
+    c.check(ok, "influenced-range an output element outside get_influenced_indices(input range)=[" + itos(infd_lo) + "," + itos(infd_hi)
+                    + "] is not the boundary-condition value (outer index " + itos(bad) + "): " + what + " got " + nums(got));
+  }
+  // (b)
+  {
+    Arr in2 = in;
+    bool changed = false;
+    int idx[3];
+    in.b.first(idx);
+    do
+      {
+        const int m = idx[0];
+        bool may = m < infl_lo || m > infl_hi;
+        if (bc == 1)
+          {
+            if (m == in.b.mn[0])
+              may = may && m < infl_lo;
+            if (m == in.b.mx[0])
+              may = may && m > infl_hi;
+          }
+        if (may && c.rng.range(0, 2) != 0)
+          {
+            in2.v[in.b.flat(idx)] += c.rng.range(1, 5);
+            changed = true;
+          }
+    } while (in.b.next(idx));
+    if (changed)
+      {
+        const std::vector<float> got2 = apply(in2, ob);
+        c.check(got2 == got, "influencing-range changing input elements outside get_influencing_indices(output range)=[" + itos(infl_lo) + "," + itos(infl_hi)
+                                 + "] changed the output: " + what + " changed-input " + arr_str(in2) + " got " + nums(got) + " then " + nums(got2));
+      }
+  }
+}
+
 static void
 conv1_cases(Ctx& c)
 {
@@ -740,6 +851,30 @@ conv1_cases(Ctx& c)
         }
       else
         c.check(bc == 2, "conv1d unexpected error for boundary condition " + itos(bc));
+      // ---- get_influencing_indices / get_influenced_indices / is_trivial
+      {
+        IndexRange<1> infl, infd;
+        const bool s1 = f.get_influencing_indices(infl, IndexRange<1>(ob.mn[0], ob.mx[0])) == Succeeded::yes;
+        const bool s2 = f.get_influenced_indices(infd, IndexRange<1>(in.b.mn[0], in.b.mx[0])) == Succeeded::yes;
+        c.emit("rng 1 K " + kstr + " I " + outer_str(in.b) + " O " + outer_str(ob), rng_answer(s1, infl, s2, infd, f.is_trivial()));
+        c.check(s1 && s2, "influence-ranges ArrayFilter1DUsingConvolution does not report its index ranges");
+        if (s1 && s2 && !err && !inplace)
+          {
+            Arr ke = k;
+            if (k.b.size() == 0)
+              {
+                int mn[1] = { 0 }, len[1] = { 1 };
+                ke = rand_arr(r, 1, mn, len, 1, 1);
+              }
+            auto apply = [&f](const Arr& i2, const Box& o2) {
+              Array<1, float> o = mk_filled<1>(o2, 77.F);
+              f(o, mk<1>(i2));
+              return flat(o);
+            };
+            range_oracle(c, apply, ke, in, ob, bc, infl.get_min_index(), infl.get_max_index(), infd.get_min_index(), infd.get_max_index(), got,
+                         "ArrayFilter1DUsingConvolution bc=" + itos(bc) + " K " + kstr + " X " + arr_str(in) + " O " + ob.str());
+          }
+      }
     }
 }
 
@@ -778,6 +913,14 @@ csym_cases(Ctx& c)
           got = flat(o);
         }
       c.emit(std::string(inplace ? "csymip" : "csym") + " K " + arr_str(k) + " X " + arr_str(in), nums(got));
+      if (t % 4 == 0)
+        { // this class does not override the index-range queries: "not a meaningful concept" (Succeeded::no)
+          const ArrayFunctionObject<1, float>& base = f;
+          IndexRange<1> a, b;
+          const bool s1 = base.get_influencing_indices(a, IndexRange<1>(in.b.mn[0], in.b.mx[0])) == Succeeded::yes;
+          const bool s2 = base.get_influenced_indices(b, IndexRange<1>(in.b.mn[0], in.b.mx[0])) == Succeeded::yes;
+          c.emit("rng s K " + arr_str(k), std::string(s1 ? "yes" : "no") + " " + (s2 ? "yes" : "no") + " " + itos(f.is_trivial()));
+        }
       // ORACLE: equals the convolution with the symmetrised kernel k_{|j|}, zero extension
       Arr ks;
       ks.b.d = 1;
@@ -794,31 +937,59 @@ csym_cases(Ctx& c)
 static const char* const KEY_TRIVIAL
     = "conv2d3d:is_trivial-looks-only-at-outer-extent-and-coefficient-at-origin";
 
+// the real 2-D / 3-D filter on (in, ob); `empty`: the default-constructed object (no kernel)
 template <int D>
-static void
-convnd_case(Ctx& c, const Arr& k, const Arr& in, const Box& ob)
+static std::vector<float>
+run_convnd(const Arr& k, bool empty, const Arr& in, const Box& ob, bool inplace)
 {
-  std::vector<float> got;
   if (D == 2)
     {
-      ArrayFilter2DUsingConvolution<float> f(mk<2>(k));
+      const ArrayFilter2DUsingConvolution<float> f = empty ? ArrayFilter2DUsingConvolution<float>() : ArrayFilter2DUsingConvolution<float>(mk<2>(k));
+      if (inplace)
+        {
+          Array<2, float> a = mk<2>(in);
+          f(a);
+          return flat(a);
+        }
       Array<2, float> o = mk_filled<2>(ob, 77.F);
       f(o, mk<2>(in));
-      got = flat(o);
+      return flat(o);
     }
-  else
+  const ArrayFilter3DUsingConvolution<float> f = empty ? ArrayFilter3DUsingConvolution<float>() : ArrayFilter3DUsingConvolution<float>(mk<3>(k));
+  if (inplace)
     {
-      ArrayFilter3DUsingConvolution<float> f(mk<3>(k));
-      Array<3, float> o = mk_filled<3>(ob, 77.F);
-      f(o, mk<3>(in));
-      got = flat(o);
+      Array<3, float> a = mk<3>(in);
+      f(a);
+      return flat(a);
     }
-  c.emit(std::string(D == 2 ? "conv2" : "conv3") + " K " + arr_str(k) + " X " + arr_str(in) + " O " + ob.str(), nums(got));
-  const bool ok = same(got, conv_spec(k, in, ob, 0));
-  const std::string text = std::string("ArrayFilter") + (D == 2 ? "2D" : "3D") + "UsingConvolution != sum_j k_j in_{i-j}: K " + arr_str(k) + " X " + arr_str(in) + " O "
-                           + ob.str() + " got " + nums(got);
+  Array<3, float> o = mk_filled<3>(ob, 77.F);
+  f(o, mk<3>(in));
+  return flat(o);
+}
+
+template <int D>
+static void
+convnd_case(Ctx& c, const Arr& k, const Arr& in, const Box& ob_, bool inplace = false)
+{
+  const bool empty = k.b.size() == 0; // default-constructed filter: no kernel, the identity
+  const Box ob = inplace ? in.b : ob_;
+  const std::vector<float> got = run_convnd<D>(k, empty, in, ob, inplace);
+  const std::string kstr = empty ? (D == 2 ? std::string("0 -1 0 -1") : std::string("0 -1 0 -1 0 -1")) : arr_str(k);
+  c.emit(std::string(D == 2 ? "conv2" : "conv3") + (inplace ? "ip" : "") + " K " + kstr + " X " + arr_str(in) + (inplace ? "" : " O " + ob.str()), nums(got));
+  // the convolution the class claims to be (no kernel: the identity = convolution with the unit impulse at the origin)
+  Arr ke = k;
+  if (empty)
+    {
+      ke.b.d = D;
+      for (int q = 0; q < 3; ++q)
+        ke.b.mn[q] = ke.b.mx[q] = 0;
+      ke.v.assign(1, 1.0);
+    }
+  const bool ok = same(got, conv_spec(ke, in, ob, 0));
+  const std::string text = std::string("ArrayFilter") + (D == 2 ? "2D" : "3D") + "UsingConvolution" + (inplace ? " (in-place call)" : "") + " != sum_j k_j in_{i-j}: K " + kstr
+                           + " X " + arr_str(in) + " O " + ob.str() + " got " + nums(got);
   int z[3] = { 0, 0, 0 };
-  const bool trivial_class = k.b.mn[0] == 0 && k.b.mx[0] == 0 && k.b.contains(z) && k.v[k.b.flat(z)] == 1.0 && !is_delta_at_origin(k);
+  const bool trivial_class = !empty && k.b.mn[0] == 0 && k.b.mx[0] == 0 && k.b.contains(z) && k.v[k.b.flat(z)] == 1.0 && !is_delta_at_origin(k);
   if (!ok && trivial_class)
     c.candidate(KEY_TRIVIAL,
                 std::string("ArrayFilter") + (D == 2 ? "2D" : "3D")
@@ -827,6 +998,34 @@ convnd_case(Ctx& c, const Arr& k, const Arr& in, const Box& ob)
                     + arr_str(k) + " X " + arr_str(in) + " O " + ob.str() + " got " + nums(got));
   else
     c.check(ok, "convnd " + text);
+  // ---- get_influencing_indices / get_influenced_indices (outer index) / is_trivial
+  {
+    IndexRange<1> infl, infd;
+    bool s1, s2, triv;
+    const IndexRange<1> orange(ob.mn[0], ob.mx[0]), irange(in.b.mn[0], in.b.mx[0]);
+    if (D == 2)
+      {
+        const ArrayFilter2DUsingConvolution<float> f = empty ? ArrayFilter2DUsingConvolution<float>() : ArrayFilter2DUsingConvolution<float>(mk<2>(k));
+        s1 = f.get_influencing_indices(infl, orange) == Succeeded::yes;
+        s2 = f.get_influenced_indices(infd, irange) == Succeeded::yes;
+        triv = f.is_trivial();
+      }
+    else
+      {
+        const ArrayFilter3DUsingConvolution<float> f = empty ? ArrayFilter3DUsingConvolution<float>() : ArrayFilter3DUsingConvolution<float>(mk<3>(k));
+        s1 = f.get_influencing_indices(infl, orange) == Succeeded::yes;
+        s2 = f.get_influenced_indices(infd, irange) == Succeeded::yes;
+        triv = f.is_trivial();
+      }
+    c.emit("rng " + itos(D) + " K " + kstr + " I " + outer_str(in.b) + " O " + outer_str(ob), rng_answer(s1, infl, s2, infd, triv));
+    c.check(s1 && s2, "influence-ranges ArrayFilter2D/3DUsingConvolution does not report its index ranges");
+    if (s1 && s2 && !inplace)
+      {
+        auto apply = [&k, empty](const Arr& i2, const Box& o2) { return run_convnd<D>(k, empty, i2, o2, false); };
+        range_oracle(c, apply, ke, in, ob, 0, infl.get_min_index(), infl.get_max_index(), infd.get_min_index(), infd.get_max_index(), got,
+                     std::string("ArrayFilter") + (D == 2 ? "2D" : "3D") + "UsingConvolution K " + kstr + " X " + arr_str(in) + " O " + ob.str());
+      }
+  }
 }
 
 template <int D>
@@ -873,8 +1072,31 @@ convnd_cases(Ctx& c)
           ob.mn[q] = in.b.mn[q] + r.range(-4, 3);
           ob.mx[q] = ob.mn[q] + r.range(1, D == 2 ? 8 : 5) - 1;
         }
-      convnd_case<D>(c, k, in, ob);
+      convnd_case<D>(c, k, in, ob, r.range(0, 4) == 0);
     }
+  // the default-constructed filter (no kernel): the identity, out-of-place and in place
+  {
+    vh::Rng& r = c.rng;
+    for (int v = 0; v < 2; ++v)
+      {
+        Arr k;
+        k.b.d = D;
+        for (int q = 0; q < 3; ++q)
+          {
+            k.b.mn[q] = 0;
+            k.b.mx[q] = q < D ? -1 : 0;
+          }
+        int imn[3] = { r.range(-3, 3), r.range(-3, 3), r.range(-3, 3) }, ilen[3] = { r.range(1, 4), r.range(1, 4), r.range(1, 4) };
+        const Arr in = rand_arr(r, D, imn, ilen, -8, 8);
+        Box ob = in.b;
+        for (int q = 0; q < D; ++q)
+          {
+            ob.mn[q] = in.b.mn[q] + r.range(-3, 2);
+            ob.mx[q] = ob.mn[q] + r.range(1, 6) - 1;
+          }
+        convnd_case<D>(c, k, in, ob, v == 1);
+      }
+  }
   // the two deterministic members of the is_trivial class (finding), and a genuine delta kernel
   {
     vh::Rng& r = c.rng;
@@ -896,6 +1118,111 @@ static long
 ipow2(int e)
 {
   return 1L << e;
+}
+
+
+// the kernel in frequency space exactly as set_kernel() computes it: wrap-around copy to a 0-based array, real-data DFT
+template <int D>
+static Array<D, cf>
+kernel_in_frequency_space(const Arr& k)
+{
+  BasicCoordinate<D, int> sizes;
+  for (int q = 0; q < D; ++q)
+    sizes[q + 1] = k.b.len(q);
+  Array<D, float> k0{ IndexRange<D>(sizes) };
+  transform_array_to_periodic_indices(k0, mk<D>(k));
+  return fourier_for_real_data(k0);
+}
+
+static double
+dft_tolerance(int D, const Arr& k, const Arr& in, const int* L)
+{
+  double k1 = 0, x2 = 0, NL = 1;
+  for (double e : k.v)
+    k1 += std::fabs(e);
+  for (double e : in.v)
+    x2 += e * e;
+  for (int q = 0; q < D; ++q)
+    NL *= L[q];
+  return 32 * (std::log2(NL) + 2) * EPS * k1 * std::sqrt(x2) + 1e-30;
+}
+
+// Other ways of building / calling the same filter: the constructor taking the kernel in frequency space, the default
+// constructor + set_kernel_in_frequency_space(), and the in-place operator().  ORACLE: each gives what the object constructed
+// from the spatial kernel gives (`ans0` / `got0`, out-of-place call).
+template <int D>
+static void
+dft_filter_variants(Ctx& c, const Arr& k, const Arr& in, const Box& ob, const int* L, const std::string& ans0, const std::vector<float>& got0)
+{
+  const int v = c.rng.range(0, 5);
+  if (v > 2)
+    return;
+  const std::string kxo = " K " + arr_str(k) + " X " + arr_str(in);
+  std::vector<float> got;
+  std::string ans, op, what;
+  const Box ob2 = v == 2 ? in.b : ob;
+  try
+    {
+      if (v == 0)
+        {
+          op = "dftfq " + itos(D) + " c" + kxo + " O " + ob.str();
+          what = "constructor(kernel in frequency space)";
+          ArrayFilterUsingRealDFTWithPadding<D, float> f(kernel_in_frequency_space<D>(k));
+          Array<D, float> o = mk_filled<D>(ob, 77.F);
+          f(o, mk<D>(in));
+          got = flat(o);
+        }
+      else if (v == 1)
+        {
+          op = "dftfq " + itos(D) + " s" + kxo + " O " + ob.str();
+          what = "set_kernel_in_frequency_space";
+          ArrayFilterUsingRealDFTWithPadding<D, float> f;
+          const Array<D, cf> H = kernel_in_frequency_space<D>(k);
+          if (f.set_kernel_in_frequency_space(H) != Succeeded::yes)
+            throw 1;
+          Array<D, float> o = mk_filled<D>(ob, 77.F);
+          f(o, mk<D>(in));
+          got = flat(o);
+        }
+      else
+        {
+          op = "dftfip " + itos(D) + kxo;
+          what = "in-place operator()";
+          ArrayFilterUsingRealDFTWithPadding<D, float> f(mk<D>(k));
+          Array<D, float> a = mk<D>(in);
+          f(a);
+          got = flat(a);
+        }
+      ans = nums(got);
+    }
+  catch (...)
+    {
+      ans = "err";
+    }
+  c.emit(op, ans);
+  if (v == 2)
+    {
+      // reference: the same object, out-of-place call onto the input's index range
+      std::vector<float> ref;
+      bool referr = false;
+      try
+        {
+          ArrayFilterUsingRealDFTWithPadding<D, float> f(mk<D>(k));
+          Array<D, float> o = mk_filled<D>(in.b, 77.F);
+          f(o, mk<D>(in));
+          ref = flat(o);
+        }
+      catch (...)
+        {
+          referr = true;
+        }
+      c.check(referr == (ans == "err") && (referr || maxdiff(got, ref) <= dft_tolerance(D, k, in, L)),
+              "dft-filter-inplace ArrayFilterUsingRealDFTWithPadding: in-place operator() differs from the out-of-place call: K " + arr_str(k) + " X " + arr_str(in));
+    }
+  else
+    c.check((ans0 == "err") == (ans == "err") && (ans == "err" || maxdiff(got, got0) <= dft_tolerance(D, k, in, L)),
+            "dft-filter-frequency-kernel ArrayFilterUsingRealDFTWithPadding built by " + what + " from fourier_for_real_data(kernel) differs from the object built from the spatial kernel: K "
+                + arr_str(k) + " X " + arr_str(in) + " O " + ob.str() + " spatial: " + (ans0 == "err" ? ans0 : nums(got0)) + " frequency: " + ans);
 }
 
 template <int D>
@@ -1008,6 +1335,7 @@ dft_filter_case(Ctx& c, int mode)
       ans = "err";
     }
   c.emit("dftf " + itos(D) + " K " + arr_str(k) + " X " + arr_str(in) + " O " + ob.str(), ans);
+  dft_filter_variants<D>(c, k, in, ob, L, ans, got);
   if (ans == "err")
     {
       if (L[D - 1] == 2)
@@ -1051,14 +1379,7 @@ dft_filter_case(Ctx& c, int mode)
           f(o, mk<3>(in));
           direct = flat(o);
         }
-      double k1 = 0, x2 = 0, NL = 1;
-      for (double e : k.v)
-        k1 += std::fabs(e);
-      for (double e : in.v)
-        x2 += e * e;
-      for (int q = 0; q < D; ++q)
-        NL *= L[q];
-      const double tol = 32 * (std::log2(NL) + 2) * EPS * k1 * std::sqrt(x2) + 1e-30;
+      const double tol = dft_tolerance(D, k, in, L);
       const double d = maxdiff(got, direct);
       int z[3] = { 0, 0, 0 };
       if (d > tol && D > 1 && k.b.mn[0] == 0 && k.b.mx[0] == 0 && k.b.contains(z) && k.v[k.b.flat(z)] == 1.0 && !is_delta_at_origin(k))
@@ -1118,6 +1439,256 @@ dft_filter_cases(Ctx& c)
         }
       c.emit("dftf 1 K " + arr_str(k) + " X " + arr_str(in) + " O " + in.b.str(), ans);
     }
+}
+
+
+// ---- ArrayFilterUsingRealDFTWithPadding: kernels given in frequency space
+static bool
+pow2(int n)
+{
+  return n > 0 && (n & (n - 1)) == 0;
+}
+
+// set_kernel_in_frequency_space / the complex constructor / set_padding_range: which index ranges are accepted, and which padding
+// range results (private: observed as the period of the response of the identity filter H = 1 to a unit impulse)
+template <int D>
+static void
+padr_case(Ctx& c, int t)
+{
+  vh::Rng& r = c.rng;
+  Box fb;
+  fb.d = D;
+  for (int q = 0; q < 3; ++q)
+    fb.mn[q] = fb.mx[q] = 0;
+  const int shifted = t % 4 == 1 ? r.range(0, D - 1) : -1;      // a dimension whose index range does not start at 0
+  const bool irregular = D == 2 && t % 8 == 6;                   // rows of different lengths
+  const int badsize = t % 8 == 3 ? r.range(0, D - 1) : -1;       // a dimension whose (padded) length is not a power of two
+  for (int q = 0; q < D; ++q)
+    {
+      int len;
+      if (q == D - 1)
+        {
+          const int n = q == badsize ? (r.coin() ? 3 : 6) : (1 << r.range(0, D == 1 ? 4 : 3));
+          len = n + 1;
+        }
+      else
+        len = q == badsize ? (r.coin() ? 3 : 6) : (1 << r.range(0, 3));
+      if (irregular && q == 0)
+        len = std::max(len, 2);
+      fb.mn[q] = q == shifted ? (r.coin() ? 1 : -r.range(1, 3)) : 0;
+      fb.mx[q] = fb.mn[q] + len - 1;
+    }
+  Array<D, cf> H(to_range<D>(fb));
+  if constexpr (D == 2)
+    {
+      if (irregular)
+        {
+          VectorWithOffset<IndexRange<1>> rows(fb.mn[0], fb.mx[0]);
+          for (int i = fb.mn[0]; i <= fb.mx[0]; ++i)
+            rows[i] = IndexRange<1>(fb.mn[1], fb.mx[1] + (i == fb.mn[0] ? 1 : 0));
+          H = Array<2, cf>(IndexRange<2>(rows));
+        }
+    }
+  H.fill(cf(1.F, 0.F));
+  ArrayFilterUsingRealDFTWithPadding<D, float> f;
+  const bool yes = f.set_kernel_in_frequency_space(H) == Succeeded::yes;
+  bool ctor_ok = true;
+  try
+    {
+      ArrayFilterUsingRealDFTWithPadding<D, float> g(H);
+    }
+  catch (...)
+    {
+      ctor_ok = false;
+    }
+  const std::string what = std::string("frequency-space kernel with index range ") + fb.str() + (irregular ? " (irregular)" : "");
+  c.check(yes == ctor_ok, "dft-filter-frequency-kernel constructor and set_kernel_in_frequency_space disagree on accepting a " + what);
+  // documentation of set_kernel_in_frequency_space: "The kernel has to be given with index ranges starting from 0."
+  c.check(yes == (!irregular && shifted < 0), std::string("dft-filter-frequency-kernel set_kernel_in_frequency_space ") + (yes ? "accepted" : "rejected") + " a " + what);
+  std::string ans = "no";
+  if (yes)
+    {
+      ans = "yes";
+      bool identity = true;
+      try
+        {
+          for (int q = 0; q < D; ++q)
+            {
+              Arr in;
+              in.b.d = D;
+              Box ob;
+              ob.d = D;
+              for (int w = 0; w < 3; ++w)
+                in.b.mn[w] = in.b.mx[w] = ob.mn[w] = ob.mx[w] = 0;
+              in.v.assign(1, 1.0);
+              ob.mx[q] = 40;
+              Array<D, float> o = mk_filled<D>(ob, 77.F);
+              f(o, mk<D>(in));
+              const std::vector<float> v = flat(o);
+              int period = 0;
+              for (int i = 0; i <= 40; ++i)
+                {
+                  const bool one = std::fabs(v[i] - 1.F) <= 1e-5F, zero = std::fabs(v[i]) <= 1e-5F;
+                  identity = identity && (one || zero);
+                  if (one && i > 0 && period == 0)
+                    period = i;
+                }
+              ans += " " + itos(period);
+            }
+        }
+      catch (...)
+        {
+          ans = "yes err";
+        }
+      bool good = true;
+      for (int q = 0; q < D; ++q)
+        good = good && pow2(q == D - 1 ? fb.len(q) - 1 : fb.len(q));
+      if (ans == "yes err")
+        {
+          if (good && fb.len(D - 1) == 2)
+            c.candidate(KEY_REAL2, "ArrayFilterUsingRealDFTWithPadding with a frequency-space kernel of 2 elements in the last dimension (padded length 2): "
+                                   "inverse_fourier_for_real_data calls error(); F " + fb.str());
+          else
+            c.check(!good, "dft-filter-frequency-kernel applying the filter raised an error although all padded lengths are powers of two: " + what);
+        }
+      else
+        c.check(identity, "dft-filter-frequency-kernel the kernel 1 in frequency space is not the identity filter (periodically repeated): " + what + " periods " + ans);
+    }
+  c.emit("padr " + itos(D) + " " + itos(irregular) + " F " + fb.str(), ans);
+  // is_trivial and the (default) index-range queries through the base class
+  {
+    const ArrayFunctionObject<D, float>& base = f;
+    IndexRange<D> a, b;
+    const bool s1 = base.get_influencing_indices(a, to_range<D>(fb)) == Succeeded::yes, s2 = base.get_influenced_indices(b, to_range<D>(fb)) == Succeeded::yes;
+    c.emit("rng d " + itos(long(H.size_all())) + " 1 0", std::string(s1 ? "yes" : "no") + " " + (s2 ? "yes" : "no") + " " + itos(f.is_trivial()));
+  }
+}
+
+static void
+dft_trivial_cases(Ctx& c)
+{
+  const ArrayFilterUsingRealDFTWithPadding<1, float> f0;
+  c.emit("rng d 0 0 0", std::string("no no ") + itos(f0.is_trivial()));
+  c.check(f0.is_trivial(), "dft-filter-trivial default-constructed ArrayFilterUsingRealDFTWithPadding is not trivial");
+  for (int v = 0; v < 3; ++v)
+    {
+      Array<1, cf> H(IndexRange<1>(0, v == 2 ? 1 : 0));
+      H.fill(cf(v == 1 ? 2.F : 1.F, 0.F));
+      ArrayFilterUsingRealDFTWithPadding<1, float> f;
+      f.set_kernel_in_frequency_space(H);
+      c.emit("rng d " + itos(long(H.size_all())) + " " + num(H[0].real()) + " " + num(H[0].imag()), std::string("no no ") + itos(f.is_trivial()));
+    }
+}
+
+// an arbitrary kernel H in frequency space (not necessarily the transform of a real kernel): out = IDFT(DFT(in) * H)
+template <int D>
+static void
+dftfh_case(Ctx& c, int t)
+{
+  vh::Rng& r = c.rng;
+  int L[3] = { 1, 1, 1 }, hn[3] = { 1, 1, 1 };
+  for (int q = 0; q < D; ++q)
+    {
+      const int emax = D == 1 ? 5 : (D == 2 ? 4 : 3);
+      L[q] = 1 << r.range(q == D - 1 ? 2 : 0, emax);
+      hn[q] = q == D - 1 ? L[q] / 2 + 1 : L[q];
+    }
+  const Box hb = box_sizes(D, hn);
+  std::vector<cf> h(hb.size());
+  for (auto& e : h)
+    e = cf(float(r.range(-3, 3)), float(r.range(-3, 3)));
+  // 1-D, every other case: a spectrum that IS the transform of a real kernel (real at the two self-conjugate frequencies)
+  const bool consistent = D == 1 && t % 2 == 0;
+  if (consistent)
+    {
+      h.front() = cf(h.front().real(), 0.F);
+      h.back() = cf(h.back().real(), 0.F);
+    }
+  // input / output ranges: equal to the padding range (direct branch of do_it) or arbitrary (wrap-around copies)
+  int imn[3] = { 0, 0, 0 }, ilen[3] = { 1, 1, 1 };
+  Box ob;
+  ob.d = D;
+  for (int q = 0; q < 3; ++q)
+    ob.mn[q] = ob.mx[q] = 0;
+  for (int q = 0; q < D; ++q)
+    {
+      if (t % 3 == 0)
+        {
+          imn[q] = 0;
+          ilen[q] = L[q];
+          ob.mn[q] = 0;
+          ob.mx[q] = L[q] - 1;
+        }
+      else
+        {
+          imn[q] = r.range(-6, 6);
+          ilen[q] = r.range(1, std::min(L[q] + 2, 10));
+          ob.mn[q] = imn[q] + r.range(-5, 5);
+          ob.mx[q] = ob.mn[q] + r.range(1, std::min(L[q] + 3, 10)) - 1;
+        }
+    }
+  const Arr in = rand_arr(r, D, imn, ilen, -8, 8);
+  const Array<D, cf> H = mkc<D>(hb, h);
+  const bool use_ctor = r.coin();
+  std::string ans;
+  std::vector<float> got;
+  try
+    {
+      ArrayFilterUsingRealDFTWithPadding<D, float> f0;
+      if (!use_ctor && f0.set_kernel_in_frequency_space(H) != Succeeded::yes)
+        throw 1;
+      const ArrayFilterUsingRealDFTWithPadding<D, float> f = use_ctor ? ArrayFilterUsingRealDFTWithPadding<D, float>(H) : f0;
+      Array<D, float> o = mk_filled<D>(ob, 77.F);
+      f(o, mk<D>(in));
+      got = flat(o);
+      ans = nums(got);
+    }
+  catch (...)
+    {
+      ans = "err";
+    }
+  c.emit("dftfh " + itos(D) + " H " + hb.str() + " " + nums(h) + " X " + arr_str(in) + " O " + ob.str(), ans);
+  c.check(ans != "err", "dft-filter-frequency-kernel unexpected error for a 0-based frequency-space kernel with power-of-two padded lengths H " + hb.str());
+  // ORACLE: a spectrum that is the transform of a real kernel gives the same filter as that kernel (spatial constructor)
+  if constexpr (D == 1)
+    {
+      if (consistent && ans != "err")
+        {
+          const Array<1, float> kreal = inverse_fourier_for_real_data(H);
+          ArrayFilterUsingRealDFTWithPadding<1, float> fs(kreal);
+          Array<1, float> o = mk_filled<1>(ob, 77.F);
+          fs(o, mk<1>(in));
+          double hmax = 0, x2 = 0;
+          for (auto& e : h)
+            hmax = std::max(hmax, (double)std::abs(cd(e)));
+          for (double e : in.v)
+            x2 += e * e;
+          const double tol = 64 * (std::log2(double(L[0])) + 2) * EPS * hmax * std::sqrt(x2) + 1e-30;
+          const double d = maxdiff(got, flat(o));
+          c.check(d <= tol, "dft-filter-frequency-kernel filter built from the spectrum H differs from the filter built from the real kernel inverse_fourier_for_real_data(H): H "
+                                + nums(h) + " X " + arr_str(in) + " O " + ob.str() + " maxdiff=" + vh::hex(d));
+        }
+    }
+}
+
+static void
+dft_freq_cases(Ctx& c)
+{
+  const int n = c.thorough ? 96 : 24;
+  for (int t = 0; t < n; ++t)
+    {
+      padr_case<1>(c, t);
+      padr_case<2>(c, t);
+      padr_case<3>(c, t);
+    }
+  dft_trivial_cases(c);
+  const int m1 = c.thorough ? 300 : 45, m2 = c.thorough ? 150 : 24, m3 = c.thorough ? 90 : 15;
+  for (int t = 0; t < m1; ++t)
+    dftfh_case<1>(c, t);
+  for (int t = 0; t < m2; ++t)
+    dftfh_case<2>(c, t);
+  for (int t = 0; t < m3; ++t)
+    dftfh_case<3>(c, t);
 }
 
 // ---- separable filters
@@ -1246,6 +1817,68 @@ separable_cases(Ctx& c)
     c.emit("sepnull X " + arr_str(in), nums(flat(a)));
     c.check(sep.is_trivial() && flat(a) == std::vector<float>(in.v.begin(), in.v.end()), "separable default-constructed object is not the identity");
   }
+}
+
+
+// ---- apply_array_functions_on_each_index (ArrayFunction.inl:244): the out-of-place separable route, the library's consumer of
+// get_influencing_indices (it filters only the rows of the input inside the influencing range of the output's rows).
+// ORACLE only (no model): with zero-boundary convolution filters on every axis the result on the output box is the 3-D
+// convolution with the outer product of the three kernels.  Restricted to the regime the function supports: no trivial
+// filter on an axis where input and output ranges differ (those rows of the output are left untouched by design), and a
+// non-empty intersection of influencing range and input range on the first two axes (otherwise it indexes an empty array).
+static void
+sepoo_cases(Ctx& c)
+{
+  const int ncases = c.thorough ? 1200 : 150;
+  for (int t = 0; t < ncases; ++t)
+    {
+      vh::Rng& r = c.rng;
+      Filt1 fl[3];
+      for (int q = 0; q < 3; ++q)
+        {
+          fl[q].type = 0;
+          int mn[1] = { r.range(-3, 1) }, len[1] = { r.range(1, 4) };
+          fl[q].k = rand_arr(r, 1, mn, len, -3, 3);
+          if (len[0] == 1 && mn[0] == 0 && fl[q].k.v[0] == 1.0)
+            fl[q].k.v[0] = 2.0; // not the trivial filter
+        }
+      int imn[3], ilen[3];
+      Box ob;
+      ob.d = 3;
+      for (int q = 0; q < 3; ++q)
+        {
+          imn[q] = r.range(-4, 4);
+          ilen[q] = r.range(1, 6);
+          // output range: overlaps the range influenced by the input (so that the influencing range meets the input range)
+          const int lo = imn[q] + fl[q].k.b.mn[0], hi = imn[q] + ilen[q] - 1 + fl[q].k.b.mx[0];
+          const int a = r.range(lo - 3, hi), b = r.range(std::max(a, lo), hi + 3);
+          ob.mn[q] = a;
+          ob.mx[q] = b;
+        }
+      const Arr in = rand_arr(r, 3, imn, ilen, -8, 8);
+      VectorWithOffset<shared_ptr<ArrayFunctionObject<1, float>>> fs(3);
+      for (int q = 0; q < 3; ++q)
+        fs[q] = fl[q].make();
+      const VectorWithOffset<shared_ptr<ArrayFunctionObject<1, float>>>& cfs = fs;
+      Array<3, float> o = mk_filled<3>(ob, 77.F);
+      apply_array_functions_on_each_index(o, mk<3>(in), cfs.begin(), cfs.end());
+      const std::vector<float> got = flat(o);
+      Arr k;
+      k.b.d = 3;
+      for (int q = 0; q < 3; ++q)
+        {
+          k.b.mn[q] = fl[q].k.b.mn[0];
+          k.b.mx[q] = fl[q].k.b.mx[0];
+        }
+      k.v.resize(k.b.size());
+      int j[3];
+      k.b.first(j);
+      do
+        k.v[k.b.flat(j)] = fl[0].k.v[j[0] - k.b.mn[0]] * fl[1].k.v[j[1] - k.b.mn[1]] * fl[2].k.v[j[2] - k.b.mn[2]];
+      while (k.b.next(j));
+      c.check(same(got, conv_spec(k, in, ob, 0)), "separable-out-of-place apply_array_functions_on_each_index != 3-D convolution with the outer product of the kernels: F " + fl[0].str()
+                                                       + " F " + fl[1].str() + " F " + fl[2].str() + " X " + arr_str(in) + " O " + ob.str() + " got " + nums(got));
+    }
 }
 
 // ---- SeparableConvolutionImageFilter: kernels given as coefficient lists in a parameter text
@@ -1486,8 +2119,33 @@ gauss_cases(Ctx& c)
           const int pk = r.range(0, 3);
           mk_[q + 1] = pk == 0 ? -1 : r.range(1, 21);
           R[q] = 14;
+          if (t % 3 == 1)
+            { // automatic kernel length (max_kernel_size = -1), narrow (0.001 .. 0.3) or wide (5.5 .. 8) FWHM
+              mk_[q + 1] = -1;
+              const int w = r.range(0, 3);
+              fw[q + 1] = w == 0 ? static_cast<float>(r.range(5500, 8000)) / 1000.F : static_cast<float>(r.range(1, 300)) / (w == 1 ? 1000.F : 100000.F);
+              R[q] = 22;
+            }
         }
-      const bool normalise = r.range(0, 3) != 0;
+      const bool normalise = t % 3 == 1 ? r.range(0, 5) != 0 : r.range(0, 3) != 0;
+      if (t % 12 == 5)
+        { // max_kernel_size == 0 is documented as an error ("use -1 for auto-length")
+          mk_[r.range(1, 3)] = 0;
+          bool threw = false;
+          try
+            {
+              SeparableGaussianArrayFilter<3, float> f0(fw, mk_, normalise);
+            }
+          catch (...)
+            {
+              threw = true;
+            }
+          c.emit("gauss " + vh::hex(fw[1]) + " " + vh::hex(fw[2]) + " " + vh::hex(fw[3]) + " " + itos(mk_[1]) + " " + itos(mk_[2]) + " " + itos(mk_[3]) + " " + itos(normalise) + " "
+                     + itos(R[0]),
+                 threw ? std::string("err") : std::string("accepted"));
+          c.check(threw, "gaussian-max-kernel-size-0 SeparableGaussianArrayFilter accepted max_kernel_size == 0");
+          continue;
+        }
       SeparableGaussianArrayFilter<3, float> f(fw, mk_, normalise);
       const Lines l = impulse_response(f, R);
       c.emit("gauss " + vh::hex(fw[1]) + " " + vh::hex(fw[2]) + " " + vh::hex(fw[3]) + " " + itos(mk_[1]) + " " + itos(mk_[2]) + " " + itos(mk_[3]) + " " + itos(normalise) + " "
@@ -1605,7 +2263,9 @@ main(int argc, char** argv)
   convnd_cases<2>(c);
   convnd_cases<3>(c);
   dft_filter_cases(c);
+  dft_freq_cases(c);
   separable_cases(c);
+  sepoo_cases(c);
   sci_cases(c);
   scic_cases(c);
   gauss_cases(c);
